@@ -37,23 +37,11 @@ ENTRY_POINTS = ["pubkey_parse", "xonly_parse", "sig_parse_der", "sig_parse_compa
 MUST_COVER = [e + s for e in ENTRY_POINTS for s in ("", ":nt", ":ok")] + [
     "f2:s0_reaches_recover", "halfagg:overflow_counts", "bppp:reject_mid_list", "rewind:ok", "rewind:small_msgbuf", "surj:verify_ok",
     "whitelist:verify_ok", "norm:verify_ok", "sig:failed_parse_consumed", "mut:count_reencoded_consistent_length", "mut:boundary", "mut:plus_n",
-    "mut:plus_p", "mut:lenfield", "mut:truncate", "mut:extend", "len:declared", "mode:raw"]
+    "mut:plus_p", "mut:lenfield", "mut:truncate", "mut:extend", "len:declared", "mode:raw",
+    # documented NULL-with-zero-length / optional-NULL arguments
+    "null0:schnorrsig_verify_msg", "null0:rangeproof_extra_commit", "null0:halfagg_aggverify", "null0:halfagg_inc_aggregate", "null0:musig_optional",
+    "null0:rewind_message_out", "null0:xonly_from_pubkey_parity"]
 
 
-def custom_main(tier, seed):
-    import json
-    import os
-    import sys
-    import time
-    from vf import fuzz
-    from vf.main import log, VERIF, evidence_dir
-    rc = fuzz.run_fuzz("C07", tier, seed, FUZZ_TARGETS, sys.modules[__name__], t0=time.time())
-    if rc != 0:
-        return rc
-    with open(os.path.join(evidence_dir(), "C07.json")) as f:
-        classes = json.load(f)["coverage"]["classes"]
-    missing = [t.name + ":" + c for t in FUZZ_TARGETS for c in MUST_COVER if classes.get(t.name + ":" + c, 0) == 0]
-    if missing:
-        log("INCONCLUSIVE generator: classes never produced: " + ", ".join(missing[:40]))
-        return 2
-    return 0
+# vf/fuzz.py turns a zero count of any of these into exit 2 (generator starved); keys are "<target>:<class>", required per build
+FUZZ_MUST_COVER = [t.name + ":" + c for t in FUZZ_TARGETS for c in MUST_COVER]
